@@ -95,7 +95,7 @@ std::string hex64(uint64_t v) { char b[20]; snprintf(b, sizeof b, "%016llx", (un
   for (auto &p : W.fault_armed) s.kv((std::string("fault_armed.") + fault_class_name[p.first]).c_str(), (int64_t)p.second);
   s.kv((std::string("evsys.") + std::to_string(run.cfg.evsys)).c_str(), (int64_t)1);
   s.kv((std::string("sched_policy.") + std::to_string(run.cfg.sched_policy)).c_str(), (int64_t)1);
-  s.kv("sched.switches", (int64_t)sched_switches()).kv("sched.points", (int64_t)sched_steps()).kv("fault_fired.clock_step_while_running", (int64_t)sched_stalls());
+  s.kv("sched.switches", (int64_t)sched_switches()).kv("sched.points", (int64_t)sched_steps()).kv("fault_fired.clock_step_while_running", (int64_t)sched_stalls()).kv("fault_fired.spurious_cond_wakeup", (int64_t)sched_spurious_wakeups());
   s.end_obj();
   s.key("samples").arr();
   if (nt) { JW e; e.obj().kv("seed", run.cfg.seed).kv("threads", (int64_t)sched_nthreads()).kv("requests", (int64_t)run.reqs.size()).kv("scheduling_points", (int64_t)sched_steps()).kv("context_switches", (int64_t)sched_switches()).end_obj(); s.raw(e.s); }
@@ -180,6 +180,14 @@ void exec_caller_step(Run &run, const Step &s, int thr) {
     }
     case S_CSVROUND: { W.api_seq++; char *csv = ares_get_servers_csv(c.ch); if (csv) ares_free_string(csv); run.note("get_servers_csv"); break; }
     case S_FILE: { W.set_file("/etc/resolv.conf", run.cfg.resolv_conf + "options ndots:" + std::to_string(1 + s.a % 3) + "\n"); run.note("system_files_rewritten"); break; }
+    case S_FAULT: {
+      // the next wait call of the event thread is interrupted (EINTR) or returns without any event
+      if (!W.faults_enabled) break;
+      Fault f; f.cls = FC_WAIT; f.err = EINTR; f.scope = 0; f.mode = (s.a & 1) ? 2 : 0;
+      W.arm(f);
+      run.note("wait_fault_armed");
+      break;
+    }
     case S_INOTIFY: { W.inotify_event("resolv.conf"); run.note("inotify_event"); sched_point(WHY_IO); break; }
     case S_WAITEMPTY: {
       // (6) a successful wait needs an instant inside the call at which nothing was outstanding
@@ -251,6 +259,7 @@ int run_mode_b(const RunCfg &cfg, const std::vector<Step> &plan, const std::vect
   sched_init(cfg.seed * 2654435761ULL + 17, cfg.sched_policy, cfg.sched_preempt, &ops, 400000);
   if (decisions) sched_set_decisions(decisions->data(), (int)decisions->size());
   sched_set_stall((int)cfg.knob("sched_stall_permille", 0), cfg.knob("sched_stall_max_us", 1000));
+  sched_set_spurious((int)cfg.knob("spurious_permille", 0));
 
   if (!run.make_channel(0)) { run.note("init_failed"); finish_and_exit(run, 0); }
   std::vector<CallerArg> args((size_t)nthreads + 1);
